@@ -181,7 +181,10 @@ class ReopenEngine(Engine):
                     break
                 path = rng.choice(files) if files and rng.random() < 0.8 else rng.choice(["ghost.py", "x/y.py", ""])
                 key = rng.choice(["", "f", "C.m", "0", "日本"])
-                if rng.random() < 0.5:
+                if rng.random() < 0.2:
+                    # forget stored information (one file, or everything)
+                    steps.append({"op": "oi", "kind": "del", "path": path if rng.random() < 0.5 else None})
+                elif rng.random() < 0.5:
                     steps.append({"op": "oi", "kind": "call", "path": path, "key": key,
                                   "args": to_jsonable(tuple(gen_hashable(rng) for _ in range(rng.randint(0, 3)))),
                                   "value": to_jsonable(gen_value(rng))})
@@ -419,6 +422,11 @@ class ReopenEngine(Engine):
         # ObjectDB.add_callinfo would first rank the value against the old one
         # (value[0]), which only makes sense for rope's own textual tuples
         files = world.project.pycore.object_info.objectdb.files
+        if st["kind"] == "del":
+            for path in list(files.keys()):
+                if st["path"] is None or path == st["path"]:
+                    del files[path]
+            return
         value = from_jsonable(st["value"])
         if st["path"] not in files:
             files.create(st["path"])
@@ -523,7 +531,7 @@ def _brief(st):
     if st["op"] == "do":
         return {"op": "do", "ops": [o[:2] if o[0] != "move" else o[:4] for o in flat_ops(st["cs"]["ops"])]}
     if st["op"] == "oi":
-        return {"op": "oi", "kind": st["kind"], "path": st["path"], "key": st["key"]}
+        return {"op": "oi", "kind": st["kind"], "path": st["path"], "key": st.get("key")}
     return dict(st)
 
 
@@ -533,7 +541,7 @@ def _abs_sig(st):
     if st["op"] == "refactor":
         return ["rf", st["kind"]]
     if st["op"] == "oi":
-        return ["oi", st["kind"], kernel.short_hash(st["value"])]
+        return ["oi", st["kind"], kernel.short_hash(st.get("value"))]
     return [st["op"], st.get("i"), st.get("drop")]
 
 
